@@ -89,7 +89,8 @@ class Rec(object):
 
 class SReq(object):
     """one user query as seen by the server"""
-    __slots__ = ("node", "conn", "req", "tag", "stream", "answered", "t", "seq", "dropped", "late")
+    __slots__ = ("node", "conn", "req", "tag", "stream", "answered", "t", "seq", "dropped", "late", "t_answered",
+                 "delivery_checked")
 
     def __init__(self, node, conn, req, seq, t):
         self.node, self.conn, self.req, self.seq, self.t = node, conn, req, seq, t
@@ -98,6 +99,8 @@ class SReq(object):
         self.answered = None      # kind of the response the server sent (None: still unanswered)
         self.dropped = False      # the server decided never to answer
         self.late = False         # answered after the request's future had already completed
+        self.t_answered = None
+        self.delivery_checked = False
 
     def __repr__(self):
         return "<SReq conn=%d stream=%d tag=%s %s>" % (self.conn.sim_id, self.stream, self.tag, self.answered)
@@ -148,6 +151,7 @@ class Machine(object):
         self.fail_points = []     # filled by the conn failure hook: snapshots with by == defunct/close paths
         self.hb_drop = False
         self.cp_sessions = []     # (conn, stream, session, log)
+        self.replace_args = []    # (pool, connection to be replaced, time) of every HostConnection._replace call
 
     # ------------------------------------------------------------------ set-up
     def build(self, cluster_kwargs=None, profile_kwargs=None):
@@ -157,6 +161,7 @@ class Machine(object):
         case, sim_, net = self.case, self.sim, self.net
         self._wrap_shutdown(P.HostConnection)
         self._wrap_shutdown(P.HostConnectionPool)
+        self._wrap_replace(P.HostConnection)
         self.node = net.add_node(ADDR, versions=tuple(case.get("versions", (1, 2, 3, 4, 5))))
         hold = U.hold_user_queries(PREFIX)
         m = self
@@ -210,15 +215,28 @@ class Machine(object):
         m = self
 
         def shutdown(pool):
+            m.mark_installed()
             if id(pool) not in m.shutdowns and not pool.is_shutdown:
                 cur = pool.get_connections() if hasattr(pool, "get_connections") else []
                 m.shutdowns[id(pool)] = dict(pool=pool, t=m.sim.world.now, current=list(cur or []),
-                                             trash=list(pool._trash), by=_pool_caller())
+                                             trash=list(pool._trash), by=_pool_caller(),
+                                             installed_before=[c for c in m.net.conns if getattr(c, "seen_installed", False)])
                 if pool not in m.pools:
                     m.pools.append(pool)
             return orig(pool)
         shutdown.__name__ = "shutdown"
         self.sim.patch.set(cls, "shutdown", shutdown)
+
+    def _wrap_replace(self, cls):
+        """record which connections HostConnection._replace was asked to replace"""
+        orig = cls.__dict__["_replace"]
+        m = self
+
+        def _replace(pool, connection):
+            m.replace_args.append((pool, connection, m.sim.world.now))
+            return orig(pool, connection)
+        _replace.__name__ = "_replace"
+        self.sim.patch.set(cls, "_replace", _replace)
 
     def _make_conn_class(self):
         base = self.net.connection_class()
@@ -230,6 +248,7 @@ class Machine(object):
                 self.handlers = []
                 self.close_snapshot = None
                 self.factory_returned_at = None
+                self.seen_installed = False     # observed as its pool's current or trashed connection
                 base.__init__(self, *a, **kw)
 
             @classmethod
@@ -276,6 +295,11 @@ class Machine(object):
         cb = getattr(conn, "_on_orphaned_stream_released", None)
         return getattr(cb, "__self__", None)
 
+    def mark_installed(self):
+        for p in self.pools:
+            for c in list(p.get_connections() or []) + list(getattr(p, "_trash", ())):
+                c.seen_installed = True
+
     def pooled_conns(self):
         out = []
         for c in self.net.conns:
@@ -293,6 +317,7 @@ class Machine(object):
             return None
 
     def _on_close(self, conn):
+        self.mark_installed()
         pool = self.pool_of(conn)
         registered = dict(conn._requests)
         snap = dict(conn=conn, t=self.sim.world.now, by=_caller(3), pool_by=_pool_caller(3), defunct=conn.is_defunct,
@@ -330,6 +355,7 @@ class Machine(object):
                     f.future = f.actor.box.get("result")
                     f.future.add_callbacks(f.pair.on_result, f.pair.on_error)
         self.pooled_conns()
+        self.mark_installed()
         return new
 
     def replace_running(self):
@@ -388,6 +414,7 @@ class Machine(object):
                 s.dropped = True
             else:
                 s.answered = kind
+                s.t_answered = self.sim.world.now
                 fut = self.futs.get(tag)
                 if fut is not None and fut.done:
                     s.late = True
